@@ -46,13 +46,14 @@ class World:
     ]
     PROBES_EXPECTED = ["mixed-kinds", "const-task", "const-sum-task", "empty-sum-task", "zero-shot-task", "measurable-task", "no-measurable",
                        "over-delivery", "peer-fault", "tracker-runner", "tagged-runner", "symbolic-runner", "exact-step", "bind-step",
-                       "empty-task-list", "disk-fault", "exact-zero-shot-task", "bind-shared-circuit", "duplicate-tasks"]
+                       "empty-task-list", "disk-fault", "exact-zero-shot-task", "bind-shared-circuit", "duplicate-tasks",
+                       "bind-idle-upper-qubits", "recycled-result-object"]
 
     def gen_plan(self, seed, tier):
         r = random.Random(seed)
         n = r.choice([1, 2, 3, 3, 4])
         runners = [{"kind": "symbolic", "seed": r.choice([None, 9])}, {"kind": "shot", "extra": r.choice([0, 2, 7])},
-                   {"kind": "tagged", "extra": r.choice([0, 3])}]
+                   {"kind": "tagged", "extra": r.choice([0, 3]), "recycle": r.random() < 0.4}]
         if r.random() < 0.6:
             runners.append({"kind": "tracker", "inner": 1, "file": "/d/est.json", "bitstrings": r.random() < 0.5})
         cfg = {"n": n, "runners": runners, "faults": r.choice(["none", "none", "low", "medium"]), "clients": r.randint(1, 2),
@@ -106,7 +107,8 @@ class World:
                 k = r.randint(1, 5)
                 s = {"op": "bind", "args": {"share": r.random() < 0.4, "tasks": [{"q": r.randrange(n), "gate": r.choice(["RX", "RY", "RZ", "PHASE"]),
                                                        "sym": r.choice(["theta", "phi", "x"]), "expr": r.choice(["{s}", "2*{s}", "{s}+phi"]),
-                                                       "val": r.uniform(-3, 3), "extra": r.random() < 0.3, "shots": r.choice([0, 5, None])}
+                                                       "val": r.uniform(-3, 3), "extra": r.random() < 0.3, "shots": r.choice([0, 5, None]),
+                                                       "pad": r.choice([0, 0, 1, 3])}
                                                       for _ in range(k)]}}
             s["client"] = r.randrange(cfg["clients"])
             s["rs"] = r.getrandbits(32)
@@ -136,7 +138,7 @@ class World:
                 elif spec["kind"] == "shot":
                     obj = ShotBackend(extra=spec["extra"])
                 elif spec["kind"] == "tagged":
-                    obj = TaggedRunner(extra=spec["extra"])
+                    obj = TaggedRunner(extra=spec["extra"], recycle=bool(spec.get("recycle")))
                 else:
                     obj = MeasurementTrackingBackend(runners[spec["inner"]]["obj"], spec["file"], spec["bitstrings"])
                 runners.append({"spec": spec, "obj": obj, "requests": []})
@@ -170,6 +172,7 @@ class World:
         R = st["runners"][a["runner"] % len(st["runners"])]
         kind = R["spec"]["kind"]
         ctx.probe(kind + "-runner")
+        recycled_before = getattr(R["obj"], "recycled", 0)
         base = st["runners"][R["spec"]["inner"]] if kind == "tracker" else R
         tasks, expect = [], []
         for t in a["tasks"]:
@@ -279,6 +282,8 @@ class World:
             ctx.check(after == snapshot, "mutated-argument", "tasks", "estimation changed its task list")
         if base["spec"]["kind"] in ("shot", "tagged") and base["spec"]["extra"] and measurable:
             ctx.probe("over-delivery")
+        if getattr(R["obj"], "recycled", 0) > recycled_before:
+            ctx.probe("recycled-result-object")
         ctx.log("estimate", "ok", _sig=sig, n_tasks=len(tasks))
 
     def _do_exact(self, ctx, st, step, a):
@@ -325,13 +330,18 @@ class World:
         if a.get("share") and a["tasks"]:
             # one parametrised circuit OBJECT shared by all tasks, scanned over values of the same symbol
             t0 = a["tasks"][0]
-            a = {**a, "tasks": [{**t, "sym": t0["sym"], "expr": t0["expr"], "gate": t0["gate"], "q": t0["q"]} for t in a["tasks"]]}
+            a = {**a, "tasks": [{**t, "sym": t0["sym"], "expr": t0["expr"], "gate": t0["gate"], "q": t0["q"], "pad": t0.get("pad", 0)} for t in a["tasks"]]}
             ctx.probe("bind-shared-circuit")
         shared = None
         for t in a["tasks"]:
             s = sympy.Symbol(t["sym"])
             e = sympy.sympify(t["expr"].format(s=t["sym"]), locals={t["sym"]: s, "phi": sympy.Symbol("phi")})
-            circ = Circuit([builtin_gate_by_name(t["gate"])(e)(t["q"]), builtin_gate_by_name("X")(0)])
+            # "pad" idle qubits above the highest one a gate touches: the register width is then carried by the
+            # circuit object alone and must survive binding ("changes nothing else")
+            circ = Circuit([builtin_gate_by_name(t["gate"])(e)(t["q"]), builtin_gate_by_name("X")(0)],
+                           (t["q"] + 1 + t["pad"]) if t.get("pad") else None)
+            if t.get("pad"):
+                ctx.probe("bind-idle-upper-qubits")
             if a.get("share"):
                 shared = shared or circ
                 circ = shared
@@ -355,7 +365,12 @@ class World:
                 got = new.circuit.operations[0].params[0]
                 ctx.check(sympy.simplify(sympy.sympify(got) - want) == 0 or abs(complex(sympy.N(sympy.sympify(got) - want, subs={sympy.Symbol("phi"): 0.3}))) < 1e-12,
                           "order", "bind-own-map", f"task {i}: parameter {got!r}, expected {want!r} from its own map {m}")
-                ctx.check(new.circuit.n_qubits == old.circuit.n_qubits and len(new.circuit.operations) == 2, "mutated-argument", "bind-circuit-shape", f"task {i}")
+                ctx.check(new.circuit.n_qubits == old.circuit.n_qubits and len(new.circuit.operations) == 2, "mutated-argument", "bind-circuit-shape",
+                          f"task {i}: bound circuit has width {new.circuit.n_qubits} and {len(new.circuit.operations)} operations, the task's circuit {old.circuit.n_qubits} and 2")
+                ctx.check(new.circuit.operations[1] == old.circuit.operations[1]
+                          and tuple(new.circuit.operations[0].qubit_indices) == tuple(old.circuit.operations[0].qubit_indices)
+                          and new.circuit.operations[0].gate.name == old.circuit.operations[0].gate.name,
+                          "mutated-argument", "bind-circuit-ops", f"task {i}: binding changed more than the parameter")
                 ctx.check(s in old.circuit.free_symbols, "mutated-argument", "bind-input-circuit", f"task {i}: input circuit was bound in place")
             ctx.check(maps == maps_before, "mutated-argument", "bind-maps", "symbol maps changed")
         ctx.probe("bind-step")
